@@ -128,6 +128,16 @@ def hazards(ctx, site):
             for x in fl.roots(ast.Name(id=k, ctx=ast.Load()), nid):
                 if x[0] == 'param':
                     keys.add(x[1])
+    # attributes of self that enter the key and are assigned in this function from parameters
+    from .rules import assigns_to_attr
+    for k in list(keys):
+        if k in fl.rd.names:
+            for x in fl.roots(ast.Name(id=k, ctx=ast.Load()), nid):
+                if x[0] == 'attr' and x[1].startswith('self.'):
+                    for a in assigns_to_attr(site.func, x[1]):
+                        for y in fl.roots(a.value, fl.node_id_of(a)):
+                            if y[0] == 'param':
+                                keys.add(y[1])
     site.keys = keys
     for x in sorted(r, key=str):
         if x[0] == 'param':
@@ -150,3 +160,43 @@ def hazards(ctx, site):
         elif x[0] == 'owner':
             continue
     return bad, r
+
+
+def inplace_on_cached(ctx, site):
+    """statements in the memo site's function that update in place a local that aliases the cached
+    value (bound from an expression that reads the cache attribute)"""
+    f = site.func
+    if site.kind in ('cached_property', 'setattr'):
+        return []
+    attr = site.attr
+    aliases = set()
+    for s_ in walk_no_nested(f.node):
+        if isinstance(s_, ast.Assign):
+            reads = any(isinstance(x, ast.Attribute) and x.attr == attr and isinstance(x.ctx, ast.Load)
+                        for x in ast.walk(s_.value))
+            # only plain bindings / slices / unpacking alias the cached object (arithmetic copies)
+            v = s_.value
+            while isinstance(v, ast.Subscript):
+                v = v.value
+            if reads and isinstance(v, ast.Attribute) and v.attr == attr:
+                for t in s_.targets:
+                    for x in ast.walk(t):
+                        if isinstance(x, ast.Name):
+                            aliases.add(x.id)
+    bad = []
+    for s_ in walk_no_nested(f.node):
+        if isinstance(s_, ast.AugAssign):
+            b = s_.target
+            while isinstance(b, (ast.Subscript, ast.Attribute)):
+                b = b.value
+            if isinstance(b, ast.Name) and b.id in aliases:
+                bad.append(s_)
+        elif isinstance(s_, ast.Assign):
+            for t in s_.targets:
+                if isinstance(t, ast.Subscript):
+                    b = t
+                    while isinstance(b, (ast.Subscript, ast.Attribute)):
+                        b = b.value
+                    if isinstance(b, ast.Name) and b.id in aliases:
+                        bad.append(s_)
+    return bad
